@@ -77,7 +77,13 @@ def handle (line : String) : String :=
       | "hasheq" => bin fun a b => showB (C10.hash a == C10.hash b)
       | "assign" => match rest with
         | [x] => match x.toInt? with
-          | some x => if x < 0 then "ERR:Negative" else if x < 2^64 then showV (assign n x.toNat) else "bad-op"
+          | some x =>
+            -- the harness takes the signed constructor for odd values below 2^63 and for negatives
+            if x < 0 ∨ (x < 2^63 ∧ x % 2 = 1) then
+              match ofSigned n x with
+              | .ok v => showV v
+              | .negative => "ERR:Negative"
+            else if x < 2^64 then showV (assign n x.toNat) else "bad-op"
           | none => "bad-op"
         | _ => "bad-op"
       | "touint" => un fun a => toString (touint a)
